@@ -13,7 +13,7 @@
    and sealing adds the 16-byte tag.  Everything else is the models of C01 and C05, which are tied
    to encoder.py / decoder.py / layer_noise_segments.py by their own correspondence runs; this file
    adds no new tie, it composes theorems.                                                        *)
-From YV Require Import Common.Tac C01.C01Model C02.C02Spec C01.C01Encode C01.C01Proofs C01.C01Inst
+From YV Require Import Common.Tac C01.C01Model C02.C02Spec C01.C01DecodeNode C01.C01Encode C01.C01Proofs C01.C01Inst
      Gen.C01Dict C05.C05Model C05.C05Proofs.
 
 Local Open Scope nat_scope.
@@ -171,6 +171,38 @@ Proof.
   rewrite (decode_all (firstn k ts) (firstn k bs)); [reflexivity| |exact Hek].
   apply Forall_forall. intros x Hx. rewrite Forall_forall in Hwf. apply Hwf.
   eapply In_firstn_incl; exact Hx.
+Qed.
+
+(* ---------------------------------------------------------------- the other direction: what the PEER sends
+   The server is not bound to the choices yowsup's encoder makes: any valid frame of a tree (C02's relation Frame:
+   8/16-bit list headers, literal strings instead of tokens, packed or raw digits, a deflated frame, ...) sealed
+   under the running counter and cut by the network in any way reaches the layer above the coder as that tree, in
+   sending order, each exactly once. *)
+Lemma decode_frames : forall ts bs,
+  Forall2 (fun t b => attrs_ok t /\ Frame D inflate t b) ts bs ->
+  map (C01Model.decode D inflate) bs = map (fun t => Ok (Some t)) ts.
+Proof.
+  induction 1 as [|t b ts bs [Ho Hf] _ IH]; [reflexivity|].
+  cbn [map]. rewrite (accepts_all_thm D inflate t b Ho Hf), IH. reflexivity.
+Qed.
+
+Lemma sealed_valid : forall bs n, Forall (fun b => (C05Model.lenN b + 16 < 16777216)%N) bs ->
+  Forall C05Model.valid_frame (seal_all n bs).
+Proof.
+  induction bs as [|b r IH]; intros n H; [constructor|].
+  inversion H as [|? ? Hb Hr]; subst. cbn [seal_all]. constructor; [|apply IH; exact Hr].
+  unfold C05Model.valid_frame, C05Model.lenN in *. rewrite seal_len. split; lia.
+Qed.
+
+Theorem pipeline_incoming_thm : forall ts bs chunks,
+  Forall2 (fun t b => attrs_ok t /\ Frame D inflate t b) ts bs ->
+  Forall (fun b => (C05Model.lenN b + 16 < 16777216)%N) bs ->
+  concat chunks = concat (map C05Model.wire (seal_all 0 bs)) ->
+  recv_all chunks = Some (map (fun t => Ok (Some t)) ts, []).
+Proof.
+  intros ts bs chunks Hf Hl Hc. unfold recv_all.
+  rewrite (reassembly_thm chunks (seal_all 0 bs) (sealed_valid bs 0%N Hl) Hc).
+  rewrite open_all_sealed, (decode_frames ts bs Hf). reflexivity.
 Qed.
 
 End Pipeline.
